@@ -428,6 +428,8 @@ def run(pm, ctx):
     ctx.import_rules(pm, 'C02', {'C02-R12'}, 'C09-R11',
                      'the unwrap helpers of the IR peel exactly the wrappers their names say '
                      '(shared with C02-R12)')
+    ctx.import_rules(pm, 'C05', {'C05-R3'}, 'C09-R12',
+                     'field slots are written only by the attribute descriptor, which leaves a deleted field unset (shared with C05-R3)')
     from ..effects import run_decisions
     from ..ownership import OWN
     run_decisions(pm, ctx, 'C09-RD', OWN['C09'])
